@@ -1522,6 +1522,19 @@ impl Sess<'_> {
         )?;
         let ops = changes.iter().map(Chg::to_op).collect::<Vec<_>>().join(" ");
         self.stats.push(format!("changes-per-notification-{}:1", changes.len()));
+        // the guard of the agreement theorems (`Spec.lfChanges`): every intermediate buffer that a
+        // ranged change of this notification addresses, not only the buffer after the notification
+        if let EdState::Open(e, _) = &self.ed {
+            let mut scratch = e.clone();
+            for c in changes {
+                if matches!(c, Chg::Range { .. }) && scratch.has_lone_cr() {
+                    self.lone_cr_seen = true;
+                }
+                if !editor_apply(&mut scratch, std::slice::from_ref(c)) {
+                    break;
+                }
+            }
+        }
         self.ed = match std::mem::replace(&mut self.ed, EdState::Undefined) {
             EdState::Open(mut e, _) => {
                 if editor_apply(&mut e, changes) {
